@@ -388,8 +388,8 @@ StmtProds == StmtProdsFor("") \cup StmtProdsFor("f") \cup StmtProdsFor("s")
              \cup {Prd("top", "Top", 0, 0, <<H("SL", 0)>>, <<H("SL", 0)>>)}
 
 (* Types (focus c): every type expression of the subset; leaves are named types by position.      *)
-TyLeaf == Prd("leaf", "Ty", 1, 0, <<"(Ident", "#Ty0", ")">>, <<"#Ty0">>)
-T1(sxs, tks) == Prd("type", "Ty", 1, 1, sxs, tks)
+TyLeaf == Prd("leaf", "Ty", 2, 0, <<"(Ident", "#Ty0", ")">>, <<"#Ty0">>)
+T1(sxs, tks) == Prd("type", "Ty", 2, 1, sxs, tks)
 TY == H("Ty", 0)
 TYR == H("Ty", 1)   \* a bare result type: `func() (T)` is a result LIST, so no parenthesised type here
 TypeProds ==
@@ -398,8 +398,8 @@ TypeProds ==
    T1(Slc(<<TY>>), <<"[", G, "]", G, TY>>),
    T1(Arr(Lit("INT", "3"), <<TY>>), <<"[", G, "3", G, "]", G, TY>>),
    T1(MapT(Id("string"), <<TY>>), <<"map", G, "[", G, "string", G, "]", G, TY>>),
-   T1(ChanT("both", <<TY>>), <<"chan", TY>>),
-   T1(ChanT("recv", <<TY>>), <<"<-", G, "chan", TY>>),
+   T1(ChanT("both", <<H("Ty", 2)>>), <<"chan", H("Ty", 2)>>),  \* `chan <-chan T` is chan<- (chan T): no bare receive-channel element
+   Prd("type", "Ty", 1, 1, ChanT("recv", <<TY>>), <<"<-", G, "chan", TY>>),
    T1(ChanT("send", <<TY>>), <<"chan", G, "<-", TY>>),
    T1(FT(FL(Fld(<<>>, <<TY>>)), FL(Fld(<<>>, <<TYR>>))), <<"func", G, "(", G, TY, G, ")", TYR>>),
    T1(FT(FL(Fld(Id("x"), <<TY>>) \o Fld(Id("y"), <<"(Ellipsis", TY, ")">>)), NIL), <<"func", G, "(", G, "x", TY, G, ",", "y", "...", G, TY, G, ")">>),
@@ -494,6 +494,10 @@ DeclProds ==
            <<"type", "#Ty", G, "[", G, "K", "comparable", G, ",", "V", "any", G, "]", "map", G, "[", G, "K", G, "]", G, "V">>),
         D1("generic", GenD("type", <<>>, TSpecG("#Ty", NIL, <<>>, <<"(InterfaceType">> \o FL(Fld(<<>>, Bin("|", Tilde("int"), Tilde("string"))) \o Fld(Id("M"), FT(FL(<<>>), NIL))) \o <<")">>)),
            <<"type", "#Ty", "interface", "{", NL, "~", G, "int", "|", "~", G, "string", NL, "M", G, "(", G, ")", NL, "}">>),
+        D1("generic", GenD("type", <<>>, TSpecG("#Ty", NIL, <<>>, <<"(InterfaceType">> \o FL(Fld(<<>>, Bin("|", IntT, Id("string")))) \o <<")">>)),
+           <<"type", "#Ty", "interface", "{", NL, "int", "|", "string", NL, "}">>),
+        D1("generic", GenD("type", <<>>, TSpecG("#Ty", NIL, <<>>, <<"(InterfaceType">> \o FL(Fld(<<>>, Slc(IntT)) \o Fld(<<>>, Id("comparable"))) \o <<")">>)),
+           <<"type", "#Ty", "interface", "{", NL, "[", G, "]", G, "int", NL, "comparable", NL, "}">>),
         \* generic function + explicit instantiation
         D1("generic", FuncD(NIL, "#Fu", FTg(FL(Fld(Id("P"), Id("any"))), FL(Fld(Id("x"), Id("P"))), FL(Fld(<<>>, Id("P")))), Blk(Ret(Id("x"))))
               \o GenD("var", <<>>, VSpec(Id("#V"), NIL, CallX(Idx(Id("#Fu"), IntT), Lit("INT", "1")))),
@@ -671,7 +675,8 @@ Closure(front, acc) == IF front = {} THEN acc
    ELSE Closure(UNION {DeriveSucc(s) : s \in front}, acc \cup {s \in front : FirstHole(s.tk) = 0})
 \* (parameterised so that TLC does not pre-evaluate the closure when the check is switched off)
 Finished(st) == Closure({st}, {})
-Unambiguous(st) == LET F == Finished(st) IN Cardinality({Tokens(s.tk) : s \in F}) = Cardinality({s.sx : s \in F})
+\* (on the bare token sequence: spacing must not be needed to tell two trees apart)
+Unambiguous(st) == LET F == Finished(st) IN Cardinality({Toks(Tokens(s.tk)) : s \in F}) = Cardinality({s.sx : s \in F})
 ASSUME CheckInjective => Unambiguous(Start)
 
 Export == phase = "layout" =>
